@@ -62,7 +62,7 @@ BINARIES = {
     "h_omp": {"flavour": "asan", "objects": _omp_objects(), "cflags": ["-fopenmp"], "ldflags": ["-fopenmp", "-lpthread"], "about": "OpenMP executors on the real libgomp runtime, 1..16 threads: P-rec, events == model, kernel-instance ownership, bit-identical to sequential, ASan+UBSan (no O-dag, no TSan); also cross-checks the shim's reading of the GOMP ABI"},
     "h_sched_tsan": {"flavour": "tsan", "objects": _sched_objects(1), "cflags": ["-fopenmp"], "ldflags": ["-lpthread"], "about": "same engine under ThreadSanitizer with wave policies (mutually unordered tasks released together)"},
     "h_fmm": {"flavour": "asan", "objects": _fmm_objects(), "about": "sequential executors + probe kernels on single trees, Dim 1..4, Morton and periodic Morton"},
-    "h_tree": {"flavour": "asan", "objects": _tree_objects(), "about": "tree construction / structure / lookup / export / rebuild over 10 template flavours (Dim 1..4, float/double, data type != real type, 0..4 rhs, periodic ordering, target/source trees)"},
+    "h_tree": {"flavour": "asan", "objects": _tree_objects(), "cflags": ["-fopenmp"], "ldflags": ["-fopenmp"], "about": "(compiled with -fopenmp and linked with the real libgomp, so that OpenMP-conditional construction paths run as in a user's OpenMP build) tree construction / structure / lookup / export / rebuild over 10 template flavours (Dim 1..4, float/double, data type != real type, 0..4 rhs, periodic ordering, target/source trees)"},
 }
 
 EXPL = "exploration"
@@ -98,8 +98,8 @@ CHECKS = {
         "claim": "For every explored input, all block sizes (1.., >= #leaves, automatic, TBFMM_BLOCK_SIZE) and both grouping modes produced the identical multiset of elementary interactions (equal to the model's), identical cell expansions and identical results; on the sequential executor, and (h_sched) on TbfOpenmpAlgorithm, TbfAlgorithmTsm and TbfOpenmpAlgorithmTsm under shim schedules, where the automatic / environment block size of both trees must also be >= 1.",
         "note": "Trusted: recorder kernel and model. Number of operator calls is deliberately not compared (batching is legitimate).",
         "jobs": [{"bin": "h_fmm", "mode": "c08"}, {"bin": "h_sched", "mode": "c08"}],
-        "rule": "h_sched: alternately a target/source input (sequential + OpenMP Tsm executors) and a single-tree input (OpenMP executor, reference = sequential executor) under explicit sizes (quick: 6 sampled incl. 1, #leaves, #leaves+1), automatic and TBFMM_BLOCK_SIZE x both modes. h_fmm: case = one random input executed under every block size of {1,2,3,5,8,...,#leaves,#leaves+1,1e7, automatic, automatic via TBFMM_BLOCK_SIZE} (all sizes 1..N+1 when N<=12) x both grouping modes; the sorted multiset (op, level, target, source, code), every multipole/local (by cell) and every result (by original index) must be identical across groupings and equal to model / direct sum. non-trivial = >= 2 occupied leaves and at least one M2L or P2P; distinct = input signature.",
-        "require_events": ["groupings", "elementary-interactions"],
+        "rule": "h_fmm periodic TUs also run the documented four-call periodic sequence (single-tree and target/source top tree, extra levels -1..3) under explicit sizes, the automatic size and both modes: results and in-tree expansions identical across groupings and equal to the exact image sum (the top tree gathers level-1 cells across groups). h_sched: alternately a target/source input (sequential + OpenMP Tsm executors) and a single-tree input (OpenMP executor, reference = sequential executor) under explicit sizes (quick: 6 sampled incl. 1, #leaves, #leaves+1), automatic and TBFMM_BLOCK_SIZE x both modes. h_fmm: case = one random input executed under every block size of {1,2,3,5,8,...,#leaves,#leaves+1,1e7, automatic, automatic via TBFMM_BLOCK_SIZE} (all sizes 1..N+1 when N<=12) x both grouping modes; the sorted multiset (op, level, target, source, code), every multipole/local (by cell) and every result (by original index) must be identical across groupings and equal to model / direct sum. non-trivial = >= 2 occupied leaves and at least one M2L or P2P; distinct = input signature.",
+        "require_events": ["groupings", "elementary-interactions", "periodic-groupings"],
         "assumptions": [],
     },
     "C12": {
@@ -108,8 +108,8 @@ CHECKS = {
         "claim": "On every explored tree: each single flag called only its operator and wrote only its output kind; every ordered partition of the flags into stages respecting the dependency order (all 2^4 chain cuts x every placement of P2P, plus the documented 3-stage split) ended bit-identical to one full run; for every upper level 0..height no operator ran above it and the result equalled the model evaluated with that level. The same three families (single flags, upper levels 0..height+1, staged histories) held on TbfOpenmpAlgorithm, TbfAlgorithmTsm and TbfOpenmpAlgorithmTsm (the OpenMP ones under shim schedules): events == model with that level, bit-identical to the sequential executor.",
         "note": "Trusted: recorder, snapshots by (level,coord) and by original index, model. The Specx/StarPU executors (mock runtimes) run the upper-level family 0..height+1 (h_specx / h_starpu c12); flag histories are not run on them.",
         "jobs": [{"bin": "h_fmm", "mode": "c12"}, {"bin": "h_sched", "mode": "c12"}, {"bin": "h_specx", "mode": "c12"}, {"bin": "h_starpu", "mode": "c12"}],
-        "rule": "cases cycle through three history families on random trees: single flags (6 runs), staged histories (quick 24 sampled incl. the documented split; thorough all %d), upper levels 0..height (height+1 runs with P-rec + P-set model); h_sched adds six families: upper levels 0..height+1 on the OpenMP executor, on both target/source executors, staged histories on the OpenMP executor and on both target/source executors, every single flag alone on the OpenMP executor and on both target/source executors (events == model masked by the flag, only the flag's output kind changes). non-trivial = tree with >= 2 particles / far or near interactions / height >= 3 respectively; distinct = family + input signature.",
-        "require_events": ["single-flag-runs", "staged-histories", "upper-level-runs"],
+        "rule": "the named composite flags the README documents (TbfNearField, TbfFarField, TbfNearAndFarFields, TbfBottomToTopStages, TbfTransferStages, TbfTopToBottomStages) are used as such: each alone must call exactly the operators listed for it, and the histories {FarField;NearField}, {NearField;FarField}, {NearAndFarFields}, the documented three-stage split and {BottomToTop;NearField;M2L;TopToBottom} head every sample of staged histories on every executor. cases cycle through three history families on random trees: single flags (6 runs + 6 named composites), staged histories (quick 24 sampled incl. the documented split; thorough all %d), upper levels 0..height (height+1 runs with P-rec + P-set model); h_sched adds six families: upper levels 0..height+1 on the OpenMP executor, on both target/source executors, staged histories on the OpenMP executor and on both target/source executors, every single flag alone on the OpenMP executor and on both target/source executors (events == model masked by the flag, only the flag's output kind changes). non-trivial = tree with >= 2 particles / far or near interactions / height >= 3 respectively; distinct = family + input signature.",
+        "require_events": ["single-flag-runs", "staged-histories", "upper-level-runs", "named-flag-runs", "named-flag-partitions-checked"],
         "assumptions": [],
     },
     "C06": {
@@ -118,8 +118,8 @@ CHECKS = {
         "claim": "On every explored input each particle was stored exactly once, in a leaf whose closed box contains it (exactly the expected leaf on dyadic inputs, upper face -> last cell), with its original index and bit-identical data; results and expansions started at zero; execute() left all symbolic buffers byte-identical.",
         "note": "Containment tolerates 4 ulp at leaf faces (either side is legitimate there); exact leaf required when positions and box are dyadic. Morton index<->coordinate checked against the model's encode.",
         "jobs": [{"bin": "h_tree", "mode": "c06"}],
-        "rule": "cases = random inputs over 10 tree flavours (Dim 1..4, float/double coordinates, data type different from coordinate type both ways, 1..7 data values, 0..4 result values, periodic ordering) x 8 distributions (uniform, clustered, lattice, cell faces, nextafter neighbours of faces, coincident, single leaf, box faces/corners) + exact-lattice inputs with exactly known leaves x random box geometries, heights, block sizes (incl. automatic), both modes; every 4th case builds target/source trees. non-trivial = N >= 2; distinct = (flavour,height,block size,mode,N,#leaves,occupancy hash).",
-        "require_events": ["particles-checked", "cells-checked", "executions"],
+        "rule": "cases = random inputs over 10 tree flavours (Dim 1..4, float/double coordinates, data type different from coordinate type both ways, 1..7 data values, 0..4 result values, periodic ordering) x 8 distributions (uniform, clustered, lattice, cell faces, nextafter neighbours of faces, coincident, single leaf, box faces/corners) + exact-lattice inputs with exactly known leaves x random box geometries, heights, block sizes (incl. automatic), both modes; every 4th case builds target/source trees; plus very large inputs (N = 1000003 .. 1200007 uniform particles, four flavours, under 2..16 threads of the real libgomp the engine is linked with: construction paths that switch on the input size or on _OPENMP) checked with the same oracle and the structural invariants. non-trivial = N >= 2; distinct = (flavour,height,block size,mode,N,#leaves,occupancy hash).",
+        "require_events": ["particles-checked", "cells-checked", "executions", "huge-trees"],
         "assumptions": ["inputs are filtered by the library's own precondition 0 <= fl(p-corner) <= width"],
     },
     "C07": {
@@ -139,7 +139,7 @@ CHECKS = {
         "claim": "In every explored history the rebuilt tree equalled a fresh tree of the edited particles (same leaf per original index, same groups), kept every data value bit-for-bit and every result value, reset all expansions, satisfied the structural invariants, and the next execution added exactly one full interaction.",
         "note": "Order of particles inside a leaf is not compared (the sort is not stable).",
         "jobs": [{"bin": "h_tree", "mode": "c13"}, {"bin": "h_fmm", "mode": "c13"}],
-        "rule": "case = build, then 1..4 cycles of {write recognisable results and expansions, move a random subset in place (all / into one leaf / onto box faces and corners / onto cell faces), rebuild, compare with fresh tree, execute}; 10 tree flavours incl. data type != coordinate type and periodic ordering (h_tree, counting kernel) and P-poly trees Dim 1..4 (h_fmm: rhs == rhs_before + exact direct sum at the new positions). non-trivial = at least one particle moved and N >= 2; distinct = tree signature + cycles.",
+        "rule": "case = build, then 1..4 cycles of {write recognisable results and expansions, move a random subset in place (all / into one leaf / onto box faces and corners / onto cell faces), rebuild, compare with fresh tree, execute}; 10 tree flavours incl. data type != coordinate type and periodic ordering (h_tree, counting kernel) and P-poly trees Dim 1..4 (h_fmm: rhs == rhs_before + exact direct sum at the new positions); plus a few empty-input cases (N = 0 single trees, target/source trees with an empty half: built, executed, rebuilt three times, queried - only 'nothing exists in it' is judged, the cases serve C15). non-trivial = at least one particle moved and N >= 2; distinct = tree signature + cycles.",
         "require_events": ["rebuild-cycles", "particles-moved", "leaf-changes"],
         "assumptions": [],
     },
@@ -167,13 +167,13 @@ CHECKS = {
         "level": EXPL,
         "technique": "runtime monitoring under a controlled scheduler: OpenMP executors linked against a GOMP-ABI shim that records declared dependencies and runs every task under hostile legal schedules; offline O-dag checker (observed conflicting accesses vs declared graph), bit-exact comparison with the sequential executor, ASan (stack-use-after-return/scope) and TSan builds",
         "claim": "For every explored tree and schedule (10 policies incl. full deferral, LIFO, random, priority-inverted, waves; 1..16 threads; random worker assignment) the OpenMP executors left the tree bit-identical to the sequential one; every pair of tasks observed to touch the same cell/leaf object with a writer was ordered by the declared dependencies (so every linear extension of the observed graphs is conflict-free); no task read a dead variable (ASan) and overlapping tasks showed no data race (TSan).",
-        "note": "Trusted: the shim's reading of the GOMP ABI (argument block copy, depend[] layout, priority) and of OpenMP task-dependence semantics; access sets are observed at cell/leaf granularity by the probe kernel. The Specx and StarPU executors run against API-compatible mock runtimes built on the same scheduler core (ASan builds in both tiers, TSan builds in the thorough tier); the mocks are our reading of the runtimes' documented contract, not the runtimes.",
+        "note": "Trusted: the shim's reading of the GOMP ABI (argument block copy, depend[] layout, priority, single) and of OpenMP task-dependence semantics (depend clauses relate sibling tasks only: they are resolved per generating task region, so tasks generated by another thread of the team are unordered with the master's); access sets are observed at cell/leaf granularity by the probe kernel. The Specx and StarPU executors run against API-compatible mock runtimes built on the same scheduler core (ASan builds in both tiers, TSan builds in the thorough tier); the mocks are our reading of the runtimes' documented contract, not the runtimes.",
         "jobs": [{"bin": "h_sched", "mode": "c03"}, {"bin": "h_sched_tsan", "mode": "c03"}, {"bin": "h_omp", "mode": "c03"}, {"bin": "h_specx", "mode": "c03"}, {"bin": "h_specx_tsan", "mode": "c03", "thorough_only": True},
                  {"bin": "h_starpu", "mode": "c03"}, {"bin": "h_starpu_tsan", "mode": "c03", "thorough_only": True},
                  # the target/source task executors are in this property's quantifier too: same engines, mode c09; only schedule-related keys of those runs are judged here
                  {"bin": "h_sched", "mode": "c09"}, {"bin": "h_sched_tsan", "mode": "c09"}, {"bin": "h_omp", "mode": "c09"}, {"bin": "h_specx", "mode": "c09"}, {"bin": "h_starpu", "mode": "c09"}],
         "key_filter": ["^c03", "^c09(-specx|-starpu)?:(odag|differs-from-sequential|kernel-instance|task-created)", "^(asan|ubsan|lsan|tsan|memcheck|assert|glibcxx-assert|abort|signal|hang|exit):"],
-        "rule": "also judged here: the schedule-related keys (O-dag, O-seq, kernel-instance ownership, sanitizers) of the target/source case sets (mode c09) of the same engines, and h_omp = the same executors on the real libgomp runtime with 1..16 threads (quick: {1, 16, one of 2/3/4/8} x 2 repetitions). case = one random tree (Dim 1..3, Morton and periodic Morton, heights up to 5..8, small block sizes so that many tasks exist) executed by TbfOpenmpAlgorithm under a set of schedules: quick = each of the 10 policies with a random thread count in {1,2,3,4,8,16} + single-thread full deferral + a 16-thread wave; thorough = every policy x every thread count; TSan build = wave policies on 2..16 threads. non-trivial = more than 3 tasks per schedule; distinct = tree signature. Evidence counts tasks, declared edges, conflicting pairs checked, distinct execution orders, max overlap.",
+        "rule": "a quarter of the executors are built from a user-supplied kernel object (const lvalue: the copy path that makes the per-worker kernels). also judged here: the schedule-related keys (O-dag, O-seq, kernel-instance ownership, sanitizers) of the target/source case sets (mode c09) of the same engines, and h_omp = the same executors on the real libgomp runtime with 1..16 threads (quick: {1, 16, one of 2/3/4/8} x 2 repetitions). case = one random tree (Dim 1..3, Morton and periodic Morton, heights up to 5..8, small block sizes so that many tasks exist) executed by TbfOpenmpAlgorithm under a set of schedules: quick = each of the 10 policies with a random thread count in {1,2,3,4,8,16} + single-thread full deferral + a 16-thread wave; thorough = every policy x every thread count; TSan build = wave policies on 2..16 threads. non-trivial = more than 3 tasks per schedule; distinct = tree signature. Evidence counts tasks, declared edges, conflicting pairs checked, distinct execution orders, max overlap.",
         "require_events": ["schedules-executed", "tasks-executed", "dag-conflicting-pairs-checked", "distinct-execution-orders"],
         "assumptions": ["task bodies are deterministic functions of the data they access (checked by observation: bit-identical results under all schedules)"],
     },
@@ -193,8 +193,8 @@ CHECKS = {
         "claim": "For every explored input, extra-level count -1..5 and box, the documented four-call periodic sequence gave every particle exactly the sum over all particle images in the reported repetition cube (self excluded in the central box only), bit-exactly with a kernel whose value depends on the image displacement; the reported repetition count equalled the interval size. Held with the sequential executors and with the OpenMP executors (single and target/source) under shim schedules.",
         "note": "The set of images is pinned through a non-symmetric degree-3 polynomial kernel (degree 2 in Dim 4 is not used here), so a wrong window or a wrong displacement changes the value. Trusted: the lattice embedding of the harness and the closed-form image sum.",
         "jobs": [{"bin": "h_fmm", "mode": "c10"}, {"bin": "h_sched", "mode": "c10"}],
-        "rule": "h_sched: the same four-call sequence with TbfOpenmpAlgorithm / TbfOpenmpAlgorithmTsm as the executor around the top-tree step, each execute() under a fresh random shim schedule (policy, 1..8 threads), 2 (quick) or 4 (thorough) schedule sets per input, extra levels -1..2 (thorough -1..5). h_fmm: case = random tree with periodic Morton ordering (Dim 1..3, heights 2..8, any centre/width incl. per-dimension widths, a third of the cases with particles on the box faces/corners), extra levels -1..5 (Dim 3: -1..3), run with Checked<P-poly> (every case), the counting kernel (every 3rd) or the target/source top tree (every 3rd). non-trivial = any; distinct = (input signature, extra levels).",
-        "require_events": ["periodic-runs", "counting-runs", "periodic-tsm-runs", "image-pairs-checked"],
+        "rule": "h_sched: the same four-call sequence with TbfOpenmpAlgorithm / TbfOpenmpAlgorithmTsm as the executor around the top-tree step, each execute() under a fresh random shim schedule (policy, 1..8 threads), 2 (quick) or 4 (thorough) schedule sets per input, extra levels -1..2 (thorough -1..5). h_fmm: case = random tree with periodic Morton ordering (Dim 1..3, heights 2..8, any centre/width incl. per-dimension widths, a third of the cases with particles on the box faces/corners), extra levels -1..5 (Dim 3: -1..3), run with Checked<P-poly> (every case), the counting kernel (every 3rd) or the target/source top tree (every 3rd); in a quarter of the cases the top tree is run as four flagged calls (P2M|P2P|L2P: nothing to do, then M2M, M2L, L2L) instead of one. non-trivial = any; distinct = (input signature, extra levels).",
+        "require_events": ["periodic-runs", "counting-runs", "periodic-tsm-runs", "image-pairs-checked", "top-tree-staged-runs"],
         "assumptions": [],
     },
     "C11": {
@@ -203,7 +203,7 @@ CHECKS = {
         "claim": "For Morton in Dim 1..4 (periodic or not): on every explored cell, coordinates and indices were in bijection below the level bound, the parent index decoded to the containing cell, the child code was the octant, interaction and neighbour lists equalled the model's sets (wrapped / clipped), per-group builders partitioned them correctly with codes decoding to the true offset, and code encode/decode were inverse over the whole range. For Hilbert (Dim 3) the same clauses are run; the two that fail are recorded as a known finding.",
         "note": "Exhaustive for every cell of every level up to a bound only (quick: Dim1<=10, Dim2<=6, Dim3<=4, Dim4<=3); random cells up to level min(30, 62/Dim) because the configuration object itself shifts an int by height-1.",
         "jobs": [{"bin": "h_index", "mode": "c11"}],
-        "rule": "cases = chunks of 2048 cells covering every cell of every level up to the bound, for tree heights level+1 and level+2; 300 random cells (incl. box corners/edges) at large levels; synthetic groups (contiguous, sparse, spanning, gapped) for the per-group builders with both values of the self-inclusion and upper-half filters; whole code ranges; positions on faces. non-trivial = level >= 1 (groups: >= 2 cells and level >= 2); distinct = (ordering, level, chunk) or case id.",
+        "rule": "cases = chunks of 2048 cells covering every cell of every level up to the bound, for tree heights level+1 and level+2; 300 random cells (incl. box corners/edges) at large levels; synthetic groups (contiguous, sparse, spanning, gapped) for the per-group builders with both values of the self-inclusion and upper-half filters, at the leaf level of the index configuration and one or two levels above it (the builders take the level as an argument); whole code ranges; positions on faces. non-trivial = level >= 1 (groups: >= 2 cells and level >= 2); distinct = (ordering, level, chunk) or case id.",
         "require_events": ["cells-checked", "interaction-entries-checked", "neighbor-entries-checked", "group-interaction-entries-checked", "codes-checked", "positions-checked"],
         "exhaustive_quick": False,
         "assumptions": [],
@@ -214,28 +214,28 @@ CHECKS = {
         "claim": "On every explored tree, executor (sequential; OpenMP under all shim schedules with 1..16 workers) and merge order, the merged counters equalled the model's number of leaves, parent-child links, transfer pairs and particle pairs, doubled after a second execute, and the wrapped kernel's results were bit-identical to the unwrapped kernel's; the timer wrapper left results unchanged.",
         "note": "Elapsed times of the timer wrapper are never judged. Counter + target/source executor is outside the property's quantifier (it does not compile, DESIGN.md section 7 D9).",
         "jobs": [{"bin": "h_fmm", "mode": "c18"}, {"bin": "h_sched", "mode": "c18"}, {"bin": "h_sched_tsan", "mode": "c18"}],
-        "rule": "cases = random trees (Dim 1..4 sequential, Dim 1..3 OpenMP; Morton and periodic Morton) with counter<P-poly>, counter<TbfTestKernel> or timer<P-poly>; per-worker counters merged in every permutation (<= 5 workers) or 6 random ones; OpenMP runs under the C03 schedule sets. non-trivial = at least one transfer or particle pair expected; distinct = configuration signature.",
-        "require_events": ["counter-values-checked", "merge-orders", "worker-copies-merged", "schedules-executed", "timer-merges"],
+        "rule": "cases = random trees (Dim 1..4 sequential, Dim 1..3 OpenMP; Morton and periodic Morton) with counter<P-poly>, counter<TbfTestKernel> or timer<P-poly>; per-worker counters merged in every permutation (<= 5 workers) or 6 random ones; OpenMP runs under the C03 schedule sets; part of the runs build the executor from a fresh user-built counter kernel (kernel-object constructor), part run a second execute() after the number of threads was lowered (totals must still double: the counts of workers no longer used belong to the totals). non-trivial = at least one transfer or particle pair expected; distinct = configuration signature.",
+        "require_events": ["counter-values-checked", "merge-orders", "worker-copies-merged", "schedules-executed", "timer-merges", "executes-after-lowering-threads"],
         "assumptions": [],
     },
     "C14": {
         "level": EXPL,
         "technique": "runtime monitoring: address-range monitor over every viewer accessor (inside buffer, below trailer, sub-blocks disjoint), byte copies into exactly-sized allocations under ASan, index-range hook H1 in the viewers, differential run of all operators on byte-copied views",
         "claim": "For every explored layout (1..4 sub-blocks of scalar / vector / multi-row / multi-column kinds, element sizes 1..4096 bytes, counts 0..10^4 incl. rows ending on / one past a 64-byte boundary) all accessors stayed inside the buffer and below the trailer, sub-blocks never overlapped, a byte copy viewed through the raw-memory constructor returned identical values (also after shrinking reuse, move construction/assignment, regrow); for every explored tree, byte copies of all groups were equivalent views and the full operator sequence run on the views left byte-identical buffers.",
-        "note": "Trusted: address arithmetic of the harness. Over-aligned element types (alignas > 16) are not exercised.",
+        "note": "Trusted: address arithmetic of the harness. Over-aligned element types (alignas > 16) are not exercised; mixed-alignment layouts use alignments that are multiples of 8 (the library concatenates sub-blocks without padding the start of a block to its own alignment, so smaller ones would misalign long/double by construction of the layout, which is the caller's choice).",
         "jobs": [{"bin": "h_mem", "mode": "c14"}],
-        "rule": "cases = 8 layout families x random counts (0, 1, k*64/size, k*64/size+1, small, up to 2000/10^4) each followed by a random smaller count set; and random trees (Dim 1..3, periodic Dim 3) whose every cell/particle group is byte-copied, viewed, compared accessor by accessor, then executed through TbfAlgorithm on the views and compared byte for byte with the originals. non-trivial = any layout case / tree with >= 2 groups; distinct = case id or configuration signature.",
+        "rule": "cases = 8 layout families (three of them with sub-blocks of different alignment template arguments: 8/8/64/8, 16/128/8, 64/8/32/256) x random counts (0, 1, k*64/size, k*64/size+1, small, up to 2000/10^4) each followed by a random smaller count set; and random trees (Dim 1..3, periodic Dim 3) whose every cell/particle group is byte-copied, viewed, compared accessor by accessor, then executed through TbfAlgorithm on the views and compared byte for byte with the originals. non-trivial = any layout case / tree with >= 2 groups; distinct = case id or configuration signature.",
         "require_events": ["elements-checked", "layouts-exercised", "groups-viewed", "bytes-compared", "viewer-bounds-hook-checks", "leaf-accessor-sets-checked", "row-kernel-runs"],
         "assumptions": [],
     },
     "C20": {
         "level": EXPL,
         "technique": "runtime monitoring: differential oracle - FullMutual / GenericInner / GenericFullRemote against a long double evaluation of the pairwise law with a first-order rounding bound",
-        "claim": "On every explored pair of particle clouds (counts 0..500 incl. 0, 1 and +-1 around multiples of 4..64, separations over 12 orders of magnitude, either sign, float and double, non-zero initial results) the routines added to every target sum q_j/r and q_i q_j (x_j-x_i)/r^3 within (n+12) eps times the sum of absolute terms, excluded the self term, left sources untouched in the one-sided routine, produced bit-exactly opposite forces for a single pair and balanced total force in general.",
+        "claim": "On every explored pair of particle clouds (counts 0..500 incl. 0, 1 and +-1 around multiples of 4..64, separations over 12 orders of magnitude, either sign and neutral particles (charge exactly 0, which still receive a potential), common charge magnitudes 1e-2..1e2, float and double, non-zero initial results) the routines added to every target sum q_j/r and q_i q_j (x_j-x_i)/r^3 within (n+12) eps times the sum of absolute terms, excluded the self term, left sources untouched in the one-sided routine, produced bit-exactly opposite forces for a single pair and balanced total force in general.",
         "note": "Scalar path only: Inastemp is not present in this image, the vectorised path is out of reach.",
         "jobs": [{"bin": "h_num", "mode": "c20", "env": {"VH_BOUNDS": "/verif/bounds.json"}}],
-        "rule": "case = random source and target clouds; remote, mutual and inner routines each compared component by component with the long double reference. non-trivial = both clouds non-empty; distinct = (type, counts, scale, sign, initial-rhs flag).",
-        "require_events": ["p2p-values-checked", "p2p-opposite-pairs-checked"],
+        "rule": "case = random source and target clouds; remote, mutual and inner routines each compared component by component with the long double reference. non-trivial = both clouds non-empty; distinct = (type, counts, scale, sign, initial-rhs flag, neutral-particle pattern, charge scale).",
+        "require_events": ["p2p-values-checked", "p2p-opposite-pairs-checked", "p2p-cases-with-neutral-particles"],
         "assumptions": ["tolerance coefficient p2p.coef in bounds.json (2.0) multiplies the first-order worst-case summation bound"],
     },
     "C04": {
@@ -256,7 +256,7 @@ CHECKS = {
         "note": "Bounds are empirical (bounds.json), 6x the calibration maximum.",
         "jobs": [{"bin": "h_num", "mode": "c05", "env": {"VH_BOUNDS": "/verif/bounds.json"}, "timeout": 3000},
                  {"bin": "h_num_tsan", "mode": "c05", "env": {"VH_BOUNDS": "/verif/bounds.json", "VH_FORCE_WAVE": "1"}, "timeout": 3000, "per_case": True, "stride": 2, "limit": {"quick": 60, "thorough": 400}}],
-        "rule": "every second periodic case is a periodic target/source case (periodic ordering, target/source tree, executor and top tree) against the explicit image sum. a third of the accuracy cases use neutral +q/-q pairs sharing a leaf (cells with exactly zero net charge); a strided subset of the cases also runs in a ThreadSanitizer build where every invariance re-run uses the OpenMP executor with unordered tasks released together on >= 4 real threads (shared scratch state inside a kernel is a data race there). case = random charged particle set in a random cubic box, FUnifKernel<FInterpMatrixKernelR> of the given order; every 3rd accuracy case re-run with block size 1 or one huge block and another executor, comparing results and every cell's multipole expansion; every 5th case periodic, every 5th target/source. non-trivial = height >= 3 (periodic: any); distinct = (order, type, height, N, distribution, case id).",
+        "rule": "every second periodic case is a periodic target/source case (periodic ordering, target/source tree, executor and top tree) against the explicit image sum. a third of the accuracy cases use neutral +q/-q pairs sharing a leaf (cells with exactly zero net charge); a strided subset of the cases also runs in a ThreadSanitizer build where every invariance re-run uses the OpenMP executor with unordered tasks released together on >= 4 real threads (shared scratch state inside a kernel is a data race there). case = random charged particle set in a random cubic box, FUnifKernel<FInterpMatrixKernelR> of the given order; every 3rd accuracy case re-run with block size 1 or one huge block and another executor, comparing results and every cell's multipole expansion; every 5th case periodic, every 5th target/source (re-run on the OpenMP target/source executor under a shim schedule with another grouping: equal to rounding). non-trivial = height >= 3 (periodic: any); distinct = (order, type, height, N, distribution, case id).",
         "require_events": ["targets-compared", "fmm-runs", "invariance-pairs", "cells-compared", "periodic-runs", "tsm-runs"],
         "assumptions": ["accuracy bounds are calibrated, not derived"],
     },
@@ -287,7 +287,7 @@ def c19_cells(tier):
             for o in ((0, 1, 2) if d == 3 else (0, 1)):
                 for a in (0, 1):
                     for b in (0, 1):
-                        for e in (0, 1, 2):
+                        for e in (0, 1, 2, 3):
                             full.append((d, r, o, a, b, e, 0))
                 if True:
                     for o2 in (0, 1):
@@ -298,7 +298,8 @@ def c19_cells(tier):
     # covering subset: every value of every axis appears, and the pairs (dimension x ordering), (dimension x executor)
     quick = [(1,0,0,1,1,0,0), (1,1,1,0,1,1,0), (1,0,0,0,0,2,0), (2,1,0,1,1,1,0), (2,0,1,0,1,0,0), (2,0,1,1,0,2,0), (3,0,2,0,1,0,0), (3,1,2,1,0,1,0),
              (3,0,1,1,1,2,0), (3,1,0,0,0,0,0), (3,0,1,0,1,1,0), (4,0,0,1,1,0,0), (4,1,1,0,1,2,0), (4,0,0,0,0,1,0), (4,1,1,1,1,0,0), (1,0,1,1,0,2,0),
-             (2,1,0,0,1,2,0), (3,1,2,0,0,2,0), (1,1,0,0,1,0,1), (2,0,1,0,1,0,2), (3,0,0,0,1,0,1), (3,1,1,0,0,0,2), (4,0,0,0,1,0,2), (4,1,1,0,1,0,1)]
+             (2,1,0,0,1,2,0), (3,1,2,0,0,2,0), (1,1,0,0,1,0,1), (2,0,1,0,1,0,2), (3,0,0,0,1,0,1), (3,1,1,0,0,0,2), (4,0,0,0,1,0,2), (4,1,1,0,1,0,1),
+             (2,1,0,0,1,3,0), (3,0,1,1,0,3,0), (4,1,0,1,1,3,0)]
     return quick
 
 for _c in c19_cells("thorough"):
@@ -352,8 +353,8 @@ def run_c19(V, cid, tier, seed):
 CHECKS["C19"] = {
     "level": EXPL,
     "technique": "build probe (observation of the compiler on one translation unit per documented configuration) + runtime monitoring of each configuration's program with the C01/C06/C13 oracles under ASan/UBSan",
-    "claim": "Every explored cell of the documented matrix (dimension 1..4 x float/double x Morton/periodic Morton/Hilbert(3D) x automatic/explicit block size x with/without rebuild x sequential/OpenMP/target-source executor, plus data type != coordinate type and zero result values) compiled, and its program satisfied the exactly-once, construction and rebuild oracles on a seeded sample of trees.",
-    "note": "The compile half is a build probe, not runtime monitoring (it is the observable the property names). Quick runs a 24-cell covering subset, thorough the full matrix (280 cells). The selector header with OpenMP+Specx+StarPU all defined is compiled and run against the mock runtime headers (harness/mock).",
+    "claim": "Every explored cell of the documented matrix (dimension 1..4 x float/double x Morton/periodic Morton/Hilbert(3D) x automatic/explicit block size x with/without rebuild x sequential/OpenMP/target-source/OpenMP-target-source executor, plus data type != coordinate type and zero result values) compiled, and its program satisfied the exactly-once, construction and rebuild oracles on a seeded sample of trees.",
+    "note": "The compile half is a build probe, not runtime monitoring (it is the observable the property names). Quick runs a 27-cell covering subset, thorough the full matrix (352 cells). The selector header with OpenMP+Specx+StarPU all defined is compiled and run against the mock runtime headers (harness/mock).",
     "jobs": [],
     "rule": "case = one seeded tree of one configuration cell, cycling through construction (C06 oracle), exactly-once through the configured executor (C01 oracle: P-set/P-poly, OpenMP under the scheduler shim with O-seq/O-dag, target/source, counting kernels for the data-type and zero-rhs variants), rebuild cycles (C13 oracle) or structure (cells without rebuild). non-trivial as in the contributing oracles; distinct = (cell, case signature).",
     "require_events": ["cell-cases", "cells-built"],
